@@ -38,4 +38,11 @@ theorem control_never_to_subscribers (subs : Nat → List Nat) (p : Pkt) (hc : p
 theorem response_not_to_subscribers (subs : Nat → List Nat) (p : Pkt) (hp : p.type ≠ .push) :
     invocations subs p = [] := Dispatch.response_not_to_subscribers subs p hp
 
+
+/-- T2 structure facts: the operation order of the two reader goroutines -/
+theorem reader_source :
+    Gen.seq_tcpConn_reading = ["conn.closed", "conn.conn.Read", "conn.Close", "conn.readPacket", "conn.Close", "conn.readPacket", "conn.Close"] ∧
+    Gen.seq_wsConn_reading = ["conn.closed", "conn.Close", "conn.Close", "conn.readPacket", "conn.Close"] :=
+  ⟨rfl, rfl⟩
+
 end OAP.C13
